@@ -766,7 +766,15 @@ class PteraTransformer(NodeTransformer):
         return node
 
     def visit_Global(self, node):
-        self.declarations.append(node)
+        decl = node
+        if isinstance(node, ast.Global):
+            # A global that is only read is fetched into a local variable at
+            # entry, like any other: keeping the declaration would make that
+            # fetch (and what an overrider supplies) a store into the module
+            names = [n for n in node.names if n not in self.external]
+            decl = names and ast.copy_location(ast.Global(names), node)
+        if decl:
+            self.declarations.append(decl)
         return ast.copy_location(ast.Pass(), node)
 
     visit_Nonlocal = visit_Global
